@@ -5,7 +5,8 @@
    every column content (any list of stored values, any set of row ids). *)
 From Coq Require Import ZArith List Bool Lia.
 Import ListNotations.
-Require Import Grist.Model.ModifyColumn Grist.Proofs.ModifyColumn_proofs.
+Require Import Grist.Model.ModifyColumn Grist.Proofs.ModifyColumn_proofs GristGen.ModifyColumn_gen
+               Grist.Proofs.ModifyColumn_bridge.
 
 Section C23.
   Variable V : Type.
@@ -168,3 +169,45 @@ Proof.
   - intros r [<-|[<-|[<-|[]]]]; vm_compute; split; try reflexivity; intro; try reflexivity; discriminate.
   - vm_compute. repeat split; reflexivity.
 Qed.
+
+(* ---- the code itself: the two loops are REGENERATED from /repo on every run (GristGen.ModifyColumn_gen, translated by
+   harness/sm2v.py from useractions.doModifyColumn and docactions.ModifyColumn) and bridged pointwise to the model ---- *)
+Section C23_code.
+  Variable V : Type.
+  Variable col_convert : V -> V.
+  Variable col_set : V -> V.
+  Variable strict_equal : V -> V -> bool.
+  Variable dflt : V.
+
+  Theorem C23_bridge_fill_loop : forall rows old new,
+    fill_loop_gen V col_set dflt rows old new = da_fill V col_set dflt rows old new.
+  Proof. exact (fill_loop_bridge V col_set dflt). Qed.
+
+  Theorem C23_bridge_conv_loop : forall rows old new,
+    conv_loop_gen V col_convert col_set strict_equal dflt rows (old_values V old) new =
+    (ua_convert V col_convert col_set strict_equal dflt rows old new, ua_changes V col_convert col_set strict_equal rows old).
+  Proof. exact (conv_loop_bridge V col_convert col_set strict_equal dflt). Qed.
+
+  (* the property about the regenerated code: the new column object built by the two translated loops *)
+  Theorem C23_code_cell_exact : forall size0 rows old r, In r rows ->
+    let ov := raw_get V (c_default old) (c_data old) r in
+    raw_get V dflt (new_data_gen V col_convert col_set strict_equal dflt size0 rows old) r =
+    if strict_equal ov (col_convert ov) then col_set ov else col_set (col_convert ov).
+  Proof. exact (code_cell V col_convert col_set strict_equal dflt). Qed.
+
+  Theorem C23_code_modify_converts : forall size0 rows old r, In r rows ->
+    (forall v, col_set (col_convert v) = col_convert v) ->
+    (forall v, strict_equal v (col_convert v) = true -> col_set v = col_convert v) ->
+    raw_get V dflt (new_data_gen V col_convert col_set strict_equal dflt size0 rows old) r =
+    col_convert (raw_get V (c_default old) (c_data old) r).
+  Proof.
+    intros size0 rows old r Hin H1 H2. rewrite (code_cell V col_convert col_set strict_equal dflt size0 rows old r Hin).
+    cbv zeta. destruct (strict_equal _ _) eqn:E; [apply H2; exact E | apply H1].
+  Qed.
+
+  (* the regenerated loop emits exactly the changes of the model (C23_changes_exact speaks about them) *)
+  Theorem C23_code_changes : forall rows old new,
+    snd (conv_loop_gen V col_convert col_set strict_equal dflt rows (old_values V old) new) =
+    ua_changes V col_convert col_set strict_equal rows old.
+  Proof. intros. rewrite (conv_loop_bridge V col_convert col_set strict_equal dflt). reflexivity. Qed.
+End C23_code.
